@@ -33,6 +33,7 @@ META = {
 
 AE = 'PEEK(&H35C)+256*PEEK(&H35D)'
 MEM = 'PEEK(&H2C)+256*PEEK(&H2D)'
+AS = 'PEEK(&H35A)+256*PEEK(&H35B)'
 FNPROG = ['10 DEF FNA$(X$)=X$+X$', '20 DEF FNB$(X$,Y$)=MID$(X$,2)+Y$+"k"', '30 DEF FNI$(X$)=X$', '40 DEF FNG$(Y$)=A$+Y$']
 
 
@@ -87,7 +88,7 @@ def stmt_text(a):
     if op == 'swap':
         return 'SWAP %s,%s' % (a['c'], a['d'])
     if op == 'erase':
-        return 'ERASE %s' % a['arr']
+        return 'ERASE %s' % a['arr'] + (',%s' % a['arr2'] if a.get('arr2') else '')
     if op == 'dim':
         return 'DIM %s(%s)' % (a['arr'], a['dims'])
     if op == 'clear':
@@ -155,6 +156,12 @@ class Drv(object):
             if ae[0] != 'ok' or mem[0] != 'ok':
                 raise RuntimeError('PEEK failed: %r %r' % (ae[:2], mem[:2]))
             e['ae'], e['mem'] = int(ae[1]), int(mem[1])
+            if e.get('noarr'):
+                # no array exists after this statement: the array space must be empty (its end = its start)
+                a0 = self.s.ev(AS)
+                if a0[0] != 'ok':
+                    raise RuntimeError('PEEK failed: %r' % (a0[:2],))
+                e['as'] = int(a0[1])
         except BaseException as ex:  # noqa - an escaping exception while reading a variable is an internal error
             e['kind'] = 'internal'
             e['detail'] = 'observation: %s: %s' % (type(ex).__name__, ex)
@@ -201,7 +208,7 @@ class Drv(object):
         return self.observe(e)
 
 
-KEEP = ('op', 'c', 'd', 'e', 's', 'n', 'arr', 'prog', 'kind', 'code', 'chg', 'ae', 'mem', 'fre')
+KEEP = ('op', 'c', 'd', 'e', 's', 'n', 'arr', 'arr2', 'noarr', 'as', 'prog', 'kind', 'code', 'chg', 'ae', 'mem', 'fre')
 
 
 def validate(ctx, drv, what, extra_key=None):
@@ -500,7 +507,12 @@ class Gen(object):
             return {'op': 'swap', 'c': c, 'd': rng.choice(cs)}
         if r < 0.78:
             n = rng.choice(ARRS)[0]
-            return {'op': 'erase', 'arr': n}
+            live = [a[0] for a in ARRS if self.exists.get(a[0])]
+            if len(live) == 2 and rng.random() < 0.5:
+                # the list form: both arrays in one statement; afterwards no array exists
+                rng.shuffle(live)
+                return {'op': 'erase', 'arr': live[0], 'arr2': live[1], 'noarr': True}
+            return {'op': 'erase', 'arr': n, 'noarr': live == [n]}
         if r < 0.82:
             a = rng.choice(ARRS)
             return {'op': 'dim', 'arr': a[0], 'dims': a[1]}
@@ -554,6 +566,8 @@ def code_to_spec(ctx):
             e = d.do(a)
             if a['op'] == 'erase' and e['kind'] == 'ok':
                 g.exists[a['arr']] = False
+                if a.get('arr2'):
+                    g.exists[a['arr2']] = False
             elif a['op'] == 'dim' and e['kind'] == 'ok':
                 g.exists[a['arr']] = True
             elif a['op'] != 'dim' and e['ae'] > d.events[-2]['ae'] + 30:
